@@ -499,6 +499,27 @@ def catalogue(R, t, F):
             add(["broadcast", {"other": f"fresh source action with dims {odims} (sizes/labels of self, {b}: 2)"}], bap, bref,
                 tags="fmc" if pos == nd else "f", klass=None if pos == nd else "broadcast-nontrailing")
 
+        if nd >= 2:
+            # the other action lists the receiver's dimensions in ANOTHER order (reversed), new dimension trailing: the result follows the
+            # other's order and the node at a coordinate is still the receiver's node at that coordinate
+            rdims = list(reversed(dims))
+            odims = rdims + [b]
+
+            def bap2(a, odims=odims, b=b):
+                shape = tuple(2 if d == b else a.nodes.sizes[d] for d in odims)
+                p = np.empty(shape, dtype=object)
+                for k, idx in enumerate(np.ndindex(*shape)):
+                    p[idx] = functools.partial(_zero, k)
+                coords = {d: ([b + "a", b + "b"] if d == b else a.nodes.coords[d].values) for d in odims if d == b or d in a.nodes.coords}
+                return a.broadcast(F.from_source(p, dims=odims, coords=coords))
+
+            def bref2(R, b=b, nd=nd):
+                big = np.transpose(R.big, tuple(reversed(range(nd))) + tuple(range(nd, R.big.ndim)))
+                big = np.repeat(np.expand_dims(big, nd), 2, axis=nd)
+                return R.new(tuple(reversed(R.dims)) + (b,), {**R.coords, b: [b + "a", b + "b"]}, big)
+
+            add(["broadcast", {"other": f"fresh source action with dims {odims} (the receiver's dimensions reversed, {b}: 2 trailing)"}], bap2, bref2, tags="f")
+
     # ---- transform ------------------------------------------------------------------------------
     if nd < MAX_NDIMS and nnodes * 2 <= MAX_NODES and nelem * 2 <= MAX_ELEMS:
         tn = f"t{t}"
